@@ -2,6 +2,7 @@ import JokerVerif.Drive.Common
 import JokerVerif.Model.Kernel
 import JokerVerif.Model.Units
 import JokerVerif.Lemmas.SlotLemmas
+import JokerVerif.Model.KernelCert
 /-! Driver handlers for C01 C03 C04 C07: the kernel evaluated exactly over `ℚ`
 (every IEEE double is a rational; inputs arrive as 64-bit patterns). -/
 open Lean Drive
@@ -90,6 +91,24 @@ def kernelEvalCore (j : Json) (inp : Σ n k, Kernel.KIn n k Rat) : Except String
 def kernelEvalOp : H := fun j => do kernelEvalCore j (← mkKIn j)
 def kernelEvalQOp : H := fun j => do kernelEvalCore j (← mkKInQ j)
 
+def matOfStrs (j : Json) (key : String) (k : Nat) : Except String (Mat k k Rat) := do
+  let a ← getRatStrs j key
+  if a.size != k * k then throw s!"shape mismatch in {key}"
+  return .ofFn fun i jj => a.getD (i.val * k + jj.val) 0
+
+/-- certified evaluation (any size): rational inputs plus an inverse certificate `X` and an LU certificate `L`, `U`
+for `A⁻¹`; the answer carries the outcome of the checks and is meaningful only if both are `true` -/
+def kernelEvalCertOp : H := fun j => do
+  let ⟨n, k, x⟩ ← mkKInQ j
+  let X ← matOfStrs j "X" k; let L ← matOfStrs j "L" k; let U ← matOfStrs j "U" k
+  let okInv := Kernel.checkInv x X
+  let okLU := Kernel.checkLU x L U
+  if !(okInv && okLU) then
+    return Json.mkObj [("checkInv", Json.bool okInv), ("checkLU", Json.bool okLU)]
+  return Json.mkObj [("checkInv", Json.bool okInv), ("checkLU", Json.bool okLU),
+                     ("chi2", jRat (Kernel.kchi2With x X)), ("detB", jRat (Kernel.kdetCert x U)),
+                     ("a", jRats (Kernel.kaWith x X).toList)]
+
 def lambdaKOp : H := fun j => do
   let s0 ← getRat j "sigmaK0"; let mk ← getRat j "maxK"; let e ← getRat j "e"; let pw ← getRat j "pw"
   if 1 - e ^ 2 == 0 then return Json.mkObj [("singular", Json.str "e = 1")]
@@ -123,7 +142,7 @@ def unitsConvOp : H := fun j => do
   return Json.mkObj [("value", jRat (Units.conv ⟨v, sc⟩ tg))]
 
 def kernelOps : List (String × H) :=
-  [("kernel.eval", kernelEvalOp), ("kernel.evalq", kernelEvalQOp), ("kernel.lambdaK", lambdaKOp), ("kernel.designRow", designRowOp),
+  [("kernel.eval", kernelEvalOp), ("kernel.evalq", kernelEvalQOp), ("kernel.evalcert", kernelEvalCertOp), ("kernel.lambdaK", lambdaKOp), ("kernel.designRow", designRowOp),
    ("kernel.slots", slotsOp), ("units.conv", unitsConvOp)]
 
 end Drive
